@@ -224,7 +224,7 @@ Annotation(p, pf) == UNION {{L(pf, TagLink(t, pf, pf), "annotation") : t \in Obj
 \* sidebar.py: two sections (the object, and its package / module), items expand while level < depth
 RECURSIVE SideItems(_, _)
 SideItems(ob, level) ==
-  LET direct == VisContents(ob) \cup (IF IsCls(ob) THEN Inherited(ob) ELSE {})
+  LET direct == VisContents(ob) \cup (IF IsCls(ob) THEN {c \in Inherited(ob) : ~IsOwn(c)} ELSE {})   \* :146 only Function / Attribute lists
   IN direct \cup (IF level < M.depth THEN UNION {SideItems(c, level + 1) : c \in {c \in VisContents(ob) : IsOwn(c)}} ELSE {})
 SideSections(p) == {p} \cup (IF IsMod(p) THEN (IF Objs[p].parent = None THEN {} ELSE {Objs[p].parent}) ELSE {ModuleOf(p)})
 SideListed(p) == UNION {SideItems(s, 1) : s \in SideSections(p)}
